@@ -93,7 +93,7 @@ def chain_case(draw):
 
 
 def strategy(tier):
-    return st.one_of(hist.history().map(lambda h: dict(h, kind="history")), chain_case())
+    return st.one_of(hist.history(metric_ops=True).map(lambda h: dict(h, kind="history")), chain_case())
 
 
 def selfcheck():
@@ -151,6 +151,8 @@ def run_chain(res, case):
         n_step = int(stats["n_step"])
         total_steps += n_step
         new = log[start:]
+        # a diverged trajectory reaches non-finite positions, which all "coincide" (NaN bytes): not positions
+        new = [e for e in new if np.all(np.isfinite(np.frombuffer(e[2], dtype=float)))]
         if it == "leapfrog":
             n_grad = sum(1 for e in new if e[1] == "grad_neg_log_dens")
             if n_grad > n_step:
@@ -183,7 +185,7 @@ def run_history(res, case):
         return
     s0, q0, p0 = made
     n = q0.size
-    if specs["B"]["cls"] == "riem_softabs" and np.min(np.abs(np.linalg.eigvalsh(models["B"].dens.hess(q0)))) < 1e-6:
+    if specs["B"]["cls"] == "riem_softabs" and False:  # (zero Hessian eigenvalues are inside the domain since the SoftAbs repair)
         res.discarded = True
         return
     clsA = specs["A"]["cls"]
@@ -196,7 +198,7 @@ def run_history(res, case):
     def usable(which, state):
         sp = specs[which]
         q = np.asarray(state.pos, dtype=float)
-        if sp["cls"] == "riem_softabs" and np.min(np.abs(np.linalg.eigvalsh(models[which].dens.hess(q)))) < 1e-6:
+        if sp["cls"] == "riem_softabs" and False:
             return False
         if sp["cls"] in zoo.CONSTRAINED:
             J = models[which].con.jac(q)
@@ -264,6 +266,52 @@ def run_history(res, case):
                 on_manifold[i] = False
             elif var == "mom" and clsA in zoo.CONSTRAINED:
                 on_manifold[i] = False
+        elif kind == "adapt_metric":
+            # a metric adapter's finalize on this (used) state: the metric is replaced and the momentum re-drawn; what the
+            # user functions returned at this position stays valid
+            w = op["sys"]
+            if specs[w]["cls"] not in zoo.TRACTABLE or state._read_only or not usable(w, state):
+                continue
+            from mici import adapters as ma
+            from mici import transitions as mt
+
+            ad = (ma.OnlineCovarianceMetricAdapter if op["adapter"] == "covar" else ma.OnlineVarianceMetricAdapter)()
+            tr = mt.IndependentMomentumTransition(systems[w])
+            rng = np.random.default_rng(op["seed"])
+            try:
+                a = ad.initialize(state, tr)
+                other = state.copy()
+                other.pos = np.asarray(other.pos, dtype=float) + 0.1 * rng.standard_normal(n)
+                ad.update(a, state, {}, tr)
+                ad.update(a, other, {}, tr)
+                ad.update(a, state, {}, tr)
+                ad.finalize([a], [state], tr, [rng])
+            except Exception as e:  # noqa: BLE001
+                if through_code_under_test(e.__traceback__) is None:
+                    raise
+                res.classes.append("op:adapt_metric:raised")
+                continue
+            M = np.asarray(systems[w].metric.array, dtype=float)
+            models[w] = zoo.Model(dict(specs[w], metric={"type": "identity"}))
+            models[w].M_const = M
+            models[w].Minv_const = np.linalg.inv(M)
+            res.classes.append("op:adapt_metric")
+            if specs[w]["cls"] in zoo.CONSTRAINED:
+                on_manifold[i] = False
+            if K[i]:
+                interesting = True
+        elif kind == "set_metric":
+            # the public metric attribute re-assigned (as the metric adapters do): nothing the USER functions returned
+            # depends on it, so every covered value stays covered
+            w = op["sys"]
+            if specs[w]["cls"] not in zoo.TRACTABLE:
+                continue
+            specs[w] = dict(specs[w], metric=op["metric"])
+            systems[w].metric = zoo.build_metric(op["metric"], n)
+            models[w] = zoo.Model(specs[w])
+            res.classes.append("op:set_metric")
+            if K[i]:
+                interesting = True
         elif kind in ("copy", "copy_ro", "pickle"):
             if kind == "pickle":
                 new, k_new = hist.pickle_roundtrip(state), {e for e in K[i] if e[1] not in CALLABLE_RESULTS}
